@@ -320,6 +320,11 @@ pub mod verif_log {
     pub fn take_evicted() -> Vec<Multiaddr> {
         EVICTED.with(|log| std::mem::take(&mut *log.borrow_mut()))
     }
+
+    /// Number of evictions logged on this thread since the last `take_evicted`.
+    pub fn evicted_len() -> usize {
+        EVICTED.with(|log| log.borrow().len())
+    }
 }
 
 #[cfg(test)]
